@@ -47,7 +47,9 @@ def footer_of(table):
     """{label: Fraction} from footer cells 8 (labels) / 9 (values)"""
     labels = table["footer"][8].split("\n")
     vals = table["footer"][9].split("\n")
-    return {l: money(v) for l, v in zip(labels, vals)}
+    import itertools
+    return {(l if l is not None else "<no label %d>" % k): (money(v) if v is not None else None)
+            for k, (l, v) in enumerate(itertools.zip_longest(labels, vals))}
 
 
 def year_of(day):
@@ -115,6 +117,11 @@ def run(res, ctx):
             sname = names[snum]
             t = full["secs"][sname]
             foot = footer_of(t)
+            blank = sorted(k for k, v in foot.items() if v is None)
+            if blank:
+                res.violation("failing-input", "footer of %s: %s shown without a figure" % (sname, ", ".join(blank)),
+                              {"input": r["hc"], "security": sname})
+                continue
             if so["stop"][0] == 0:
                 good.append((sname, so))
                 by_year = collections.defaultdict(lambda: ZERO)
